@@ -728,6 +728,70 @@ async fn get_at(t: &Tree, k: &[u8], ts: u64) -> Result<Option<Vec<u8>>, String> 
     tx.get_at(k, ts).map_err(|e| e.to_string())
 }
 
+/// Two versions of one key with the same (explicit) timestamp, one of them a tombstone.
+fn c10_equal_timestamps(dir: PathBuf) -> ScenFut<'static> {
+    Box::pin(async move {
+        for index in [true, false] {
+            for first in ["soft delete", "hard delete", "set"] {
+                let d = dir.join(format!("{}-{}", if index { "index" } else { "lsm" }, first.replace(' ', "_")));
+                let t = ver_cfg(index).open(&d).map_err(|e| e.to_string())?;
+                set_at(&t, b"k", b"v10", 10).await?;
+                {
+                    let mut tx = t.begin().map_err(|e| e.to_string())?;
+                    let at20 = surrealkv::WriteOptions::default().with_timestamp(Some(20));
+                    match first {
+                        "soft delete" => tx.soft_delete_with_options(&b"k"[..], &at20).map_err(|e| e.to_string())?,
+                        "hard delete" => tx.delete(&b"k"[..]).map_err(|e| e.to_string())?,
+                        _ => tx.set_at(&b"k"[..], &b"first-at-20"[..], 20).map_err(|e| e.to_string())?,
+                    }
+                    tx.commit().await.map_err(|e| e.to_string())?;
+                }
+                set_at(&t, b"k", b"second-at-20", 20).await?;
+                set_at(&t, b"other", b"o", 30).await?;
+                let what = format!("version index {}: k = v10 @10, then a {} of k {}, then k = second-at-20 @20", if index { "on" } else { "off" }, first, if first == "hard delete" { "(stamped at commit time)" } else { "@20" });
+                for phase in ["before flush", "after flush"] {
+                    if phase == "after flush" {
+                        t.verif_flush().map_err(|e| e.to_string())?;
+                    }
+                    let tr = &t;
+                    for at in [15u64, 20, 25] {
+                        match get_at(tr, b"k", at).await {
+                            Err(e) => return Err(format!("{what}; {phase}: get_at(k, {at}) fails: {e}")),
+                            Ok(v) => {
+                                // ties may resolve either way; what is never acceptable is an answer that no version gives
+                                let ok = match at {
+                                    15 => v.as_deref() == Some(&b"v10"[..]) || (first == "hard delete" && v.is_none()),
+                                    _ => v.is_none() || v.as_deref() == Some(&b"second-at-20"[..]) || v.as_deref() == Some(&b"first-at-20"[..]),
+                                };
+                                if !ok {
+                                    return Err(format!("{what}; {phase}: get_at(k, {at}) = {:?}, which no version of k gives", v.map(|v| String::from_utf8_lossy(&v).to_string())));
+                                }
+                            }
+                        }
+                    }
+                    if let Err(e) = hist_list(tr, b"a", b"z", false, true, None) {
+                        return Err(format!("{what}; {phase}: history listing fails: {e}"));
+                    }
+                    if let Err(e) = hist_list(tr, b"a", b"z", true, true, None) {
+                        return Err(format!("{what}; {phase}: backward history listing fails: {e}"));
+                    }
+                }
+                close(t).await;
+                let t = ver_cfg(index).open(&d).map_err(|e| format!("{what}; reopen: {e}"))?;
+                for at in [15u64, 20, 25] {
+                    if let Err(e) = get_at(&t, b"k", at).await {
+                        close(t).await;
+                        return Err(format!("{what}; after reopen: get_at(k, {at}) fails: {e}"));
+                    }
+                }
+                close(t).await;
+                let _ = std::fs::remove_dir_all(&d);
+            }
+        }
+        Ok(())
+    })
+}
+
 fn c10_compaction_resurrects_erased_version(dir: PathBuf) -> ScenFut<'static> {
     Box::pin(async move {
         let cfg = Cfg { level_count: 3, l0_max_files: 1, max_bytes_for_level: 1 << 20, ..ver_cfg(false) };
@@ -1412,6 +1476,44 @@ fn c12_damaged_first_header(dir: PathBuf) -> ScenFut<'static> {
     })
 }
 
+/// A whole 32 KiB block in the middle of a commit-log segment reads as zeros (a lost write).
+fn c12_zeroed_block(dir: PathBuf) -> ScenFut<'static> {
+    Box::pin(async move {
+        use surrealkv::verif::{verif_wal_read_segment, VerifWal};
+        let wal_dir = dir.join("wal");
+        std::fs::create_dir_all(&wal_dir).map_err(|e| e.to_string())?;
+        // a record of three blocks, then small ones
+        let recs: Vec<Vec<u8>> = vec![vec![b'A'; 100], (0..90_000u32).map(|i| (i % 251) as u8).collect(), vec![b'C'; 200], vec![b'D'; 300]];
+        let mut w = VerifWal::open(&wal_dir, 1 << 30, false).map_err(|e| e.to_string())?;
+        for r in &recs {
+            w.append(r).map_err(|e| e.to_string())?;
+        }
+        w.sync().map_err(|e| e.to_string())?;
+        w.close().map_err(|e| e.to_string())?;
+        let seg = std::fs::read_dir(&wal_dir).map_err(|e| e.to_string())?.flatten().map(|e| e.path()).find(|p| p.extension().map(|x| x == "wal").unwrap_or(false)).ok_or("no segment")?;
+        let pristine = std::fs::read(&seg).map_err(|e| e.to_string())?;
+        for block in 0..(pristine.len() / 32768 + 1) {
+            let mut bytes = pristine.clone();
+            let (lo, hi) = (block * 32768, ((block + 1) * 32768).min(bytes.len()));
+            bytes[lo..hi].iter_mut().for_each(|b| *b = 0);
+            std::fs::write(&seg, &bytes).map_err(|e| e.to_string())?;
+            let (got, end) = verif_wal_read_segment(&seg).map_err(|e| format!("block {block} zeroed: reading fails outright: {e}"))?;
+            for (i, (g, _)) in got.iter().enumerate() {
+                if i >= recs.len() || *g != recs[i] {
+                    return Err(format!(
+                        "4 records (100 bytes, 90 000 bytes over three blocks, 200, 300) appended; block {block} of the segment (bytes {lo}..{hi}) reads as zeros: record #{i} read back is {} bytes and is not the record appended at that position ({}); the reader then ends with {:?}",
+                        g.len(),
+                        recs.iter().position(|r| r == g).map_or("it equals no appended record: fragments around the zeros were joined".to_string(), |j| format!("it is appended record #{j}: the records in the zeroed range were skipped")),
+                        end
+                    ));
+                }
+            }
+        }
+        std::fs::write(&seg, &pristine).map_err(|e| e.to_string())?;
+        Ok(())
+    })
+}
+
 fn c12_compression_record_unchecked(dir: PathBuf) -> ScenFut<'static> {
     Box::pin(async move {
         use surrealkv::verif::{verif_wal_read_segment, VerifWal};
@@ -1818,6 +1920,41 @@ fn c19_refused_open_truncates_lock(dir: PathBuf) -> ScenFut<'static> {
         }
         if before != after {
             return Err(format!("a refused open changed the owner's LOCK file: {:?} -> {:?}", String::from_utf8_lossy(&before), String::from_utf8_lossy(&after)));
+        }
+        Ok(())
+    })
+}
+
+/// `Tree` is `Clone`: one of two handles of a store is dropped, the other stays in use.
+fn c19_clone_dropped(dir: PathBuf) -> ScenFut<'static> {
+    Box::pin(async move {
+        let cfg = base_cfg();
+        let a = cfg.open(&dir).map_err(|e| e.to_string())?;
+        put(&a, &[(b"k", b"v1")]).await?;
+        let b = a.clone();
+        drop(a);
+        // whatever the dropped handle set off runs on this runtime: give it time
+        for _ in 0..50 {
+            tokio::time::sleep(std::time::Duration::from_millis(10)).await;
+        }
+        // the remaining handle is a live instance of the store
+        let still_reads = get1(&b, b"k")?;
+        let still_commits = put(&b, &[(b"k2", b"v2")]).await;
+        let second = cfg.open(&dir);
+        let granted = second.is_ok();
+        if let Ok(t) = second {
+            close(t).await;
+        }
+        close(b).await;
+        if granted {
+            return Err(format!(
+                "a store handle was cloned and one of the two handles dropped; the other handle still reads (k = {:?}) and its commit {}; a second open of the same directory then succeeded while that handle was alive",
+                still_reads.map(|v| String::from_utf8_lossy(&v).to_string()),
+                match still_commits { Ok(()) => "was acknowledged".to_string(), Err(e) => format!("fails with '{e}'") }
+            ));
+        }
+        if let Err(e) = still_commits {
+            return Err(format!("a store handle was cloned and one of the two handles dropped: commits through the remaining handle fail: {e}"));
         }
         Ok(())
     })
@@ -2423,6 +2560,24 @@ pub fn all() -> Vec<Scenario> {
             property: "C04",
             title: "a transaction begun before a restore and one begun after it write the same key",
             run: c04_writer_begun_before_restore,
+        },
+        Scenario {
+            id: "C10-equal-timestamps",
+            property: "C10",
+            title: "two versions of one key stamped with the same timestamp, flushed (both back-ends)",
+            run: c10_equal_timestamps,
+        },
+        Scenario {
+            id: "C19-clone-dropped",
+            property: "C19",
+            title: "one of two clones of a store handle is dropped, then the directory is opened again",
+            run: c19_clone_dropped,
+        },
+        Scenario {
+            id: "C12-zeroed-block",
+            property: "C12",
+            title: "each 32 KiB block of a segment in turn reads as zeros",
+            run: c12_zeroed_block,
         },
         Scenario {
             id: "C16-filter-block-unchecked",
